@@ -222,6 +222,42 @@ fn trims<C: CI>(ctx: &mut Ctx) {
         trim_one::<C>(ctx, &[], "empty");
         trim_one::<C>(ctx, &bad[..bad.len().min(40)], "all-bad");
     });
+    if !ctx.lite {
+        ctx.group(&format!("{name}/trim-huge"), |ctx| {
+            // far-from-small inputs: runs of 2^8 / 2^16 / 2^17 (-1, 0, +1) unacceptable bytes before, after and
+            // inside the core, and cores of 2^10 .. 2^16 symbols; counters of the junk seen so far must not wrap
+            let runs: Vec<usize> = [255usize, 256, 257, 65_535, 65_536, 65_537, 70_000, 131_072].into_iter().filter(|r| ctx.tier == Tier::Thorough || (r + ctx.seed as usize) % 2 == 0 || *r == 65_536).collect();
+            for (k, run) in runs.into_iter().enumerate() {
+                let b = bad[(k * 7) % bad.len()];
+                let core: Vec<u8> = (0..5 + k).map(|_| *ctx.rng.pick(&chars)).collect();
+                let junk = vec![b; run];
+                let mut trailing = core.clone();
+                trailing.extend(&junk);
+                trim_one::<C>(ctx, &trailing, "huge-trailing-junk");
+                let mut leading = junk.clone();
+                leading.extend(&core);
+                trim_one::<C>(ctx, &leading, "huge-leading-junk");
+                let mut interior = core.clone();
+                interior.extend(&junk);
+                interior.extend(&core);
+                trim_one::<C>(ctx, &interior, "huge-interior-junk");
+                let mut both = junk.clone();
+                both.extend(&core);
+                both.extend(&junk);
+                trim_one::<C>(ctx, &both, "huge-junk-both-ends");
+            }
+            for (k, n) in huge_lengths(ctx, a.bits).into_iter().enumerate().filter(|(k, _)| k % 3 == 0) {
+                let mut v: Vec<u8> = vec![bad[k % bad.len()]; k % 4];
+                v.extend((0..n).map(|_| *ctx.rng.pick(&chars)));
+                if k % 2 == 0 {
+                    let at = v.len() - 2;
+                    v[at] = bad[(k + 1) % bad.len()];
+                }
+                v.extend(vec![bad[0]; (k + 1) % 3]);
+                trim_one::<C>(ctx, &v, if k % 2 == 0 { "huge-core-interior-bad" } else { "huge-clean-core" });
+            }
+        });
+    }
 }
 
 fn main() {
